@@ -336,6 +336,10 @@ ModelRes modelBinary(const World& W, const std::string& op, int fa, const Table&
                 double x = a.num(), y = b.num();
                 double tol = 10 * (1e-5 + 1e-5 * std::fabs(y));
                 if (x != y && std::fabs(x - y) <= tol) { M.T[i] = Val::Un(); continue; }   // too close to call
+                // EV*: a value is a product of float edge values, and the comparison multiplies them in
+                // another order than evaluate() does; two different edges whose values evaluate to the same
+                // non-zero number may still differ in the last bit inside the operation
+                if (SA.label == 'T' && x == y && x != 0.0 && &A != &B) { M.T[i] = Val::Un(); continue; }
                 c = x < y ? -1 : (x > y ? 1 : 0);
             } else c = a.i < b.i ? -1 : (a.i > b.i ? 1 : 0);
             bool r = op == "EQUAL" ? c == 0 : op == "NOT_EQUAL" ? c != 0 : op == "LESS_THAN" ? c < 0
